@@ -164,6 +164,10 @@ type Output struct {
 	Frags    []Site
 	Unknown  []string // file:line reason
 	RawHoles []string // file:line expr  (HRaw holes, to be triaged)
+	// the base64 encodings named by the two sites of the vector-tile reply path (Model/Mvt.v):
+	// base64.<X>.EncodeToString in scanWriter.writeFoot, base64.<X>.DecodeString in handleInputCommand;
+	// "?" when a site does not name exactly one
+	MvtEncode, MvtDecode string
 }
 
 type xl struct {
@@ -706,10 +710,58 @@ func Extract(repo string) (*Output, error) {
 			}
 			x := &xl{fset: fset, out: out, env: map[string]*T{}, fn: fd.Name.Name}
 			x.function(fd)
+			switch fd.Name.Name {
+			case "writeFoot":
+				out.MvtEncode = joinSite(out.MvtEncode, base64Sites(fd, "EncodeToString"))
+			case "handleInputCommand":
+				out.MvtDecode = joinSite(out.MvtDecode, base64Sites(fd, "DecodeString"))
+			}
 		}
+	}
+	if out.MvtEncode == "" {
+		out.MvtEncode = "?"
+	}
+	if out.MvtDecode == "" {
+		out.MvtDecode = "?"
 	}
 	out.scanGrammar()
 	return out, nil
+}
+
+// base64Sites lists the encodings X of every call base64.X.<method>(...) in the function.
+func base64Sites(fd *ast.FuncDecl, method string) []string {
+	var found []string
+	ast.Inspect(fd.Body, func(n ast.Node) bool {
+		c, ok := n.(*ast.CallExpr)
+		if !ok {
+			return true
+		}
+		m, ok := c.Fun.(*ast.SelectorExpr)
+		if !ok || m.Sel.Name != method {
+			return true
+		}
+		e, ok := m.X.(*ast.SelectorExpr)
+		if !ok {
+			return true
+		}
+		if pkg, ok := e.X.(*ast.Ident); ok && pkg.Name == "base64" {
+			found = append(found, e.Sel.Name)
+		}
+		return true
+	})
+	return found
+}
+
+// joinSite: exactly one site in the whole package, else "?"
+func joinSite(have string, found []string) string {
+	for _, f := range found {
+		if have == "" {
+			have = f
+		} else {
+			have = "?"
+		}
+	}
+	return have
 }
 
 // scanGrammar assembles the whole reply of the scanWriter commands from the extracted fragments.
@@ -1016,6 +1068,21 @@ func (o *Output) Coq() string {
 	emit("value_templates", o.Values)
 	emitNames("value_template_names", o.Values)
 	emit("fragments", o.Frags)
+	coqBytes := func(t string) string {
+		var b strings.Builder
+		b.WriteString("[")
+		for j := 0; j < len(t); j++ {
+			if j > 0 {
+				b.WriteString("; ")
+			}
+			b.WriteString(strconv.Itoa(int(t[j])))
+		}
+		b.WriteString("]")
+		return b.String()
+	}
+	sb.WriteString("(* the base64 encoding named by scanWriter.writeFoot for the \"mvt\" member (base64.<name>.EncodeToString)\n   and by handleInputCommand for the HTTP .mvt route (base64.<name>.DecodeString): Model/Mvt.v *)\n")
+	sb.WriteString("Definition mvt_json_encoding : bytes := (* " + coqComment(o.MvtEncode) + " *) " + coqBytes(o.MvtEncode) + ".\n")
+	sb.WriteString("Definition mvt_http_decoding : bytes := (* " + coqComment(o.MvtDecode) + " *) " + coqBytes(o.MvtDecode) + ".\n\n")
 	sb.WriteString(fmt.Sprintf("Definition n_unknown : nat := %d%%nat.\n", len(o.Unknown)))
 	for _, u := range o.Unknown {
 		sb.WriteString("(* Unknown " + coqComment(u) + " *)\n")
